@@ -92,6 +92,7 @@ type Runner struct {
 	// LockupMode is the (lockup byte, contract or nil) the miner currently asks for.
 	LockByte     uint8
 	LockContract *common.Address
+	Regime       Regime
 }
 
 var transferValues = []*big.Int{big.NewInt(1), big.NewInt(1e9), new(big.Int).Mul(big.NewInt(3), big.NewInt(params.Ether)), new(big.Int).Mul(big.NewInt(50), big.NewInt(params.Ether))}
@@ -169,10 +170,22 @@ func (r *Runner) Step(op Op) bool {
 		}
 	case OpConvert:
 		from := op.A % 4
+		if op.A%2 == 0 {
+			from = 7 // the dedicated converter
+		}
 		to := qiAccounts[op.B%len(qiAccounts)].Addr
 		nonce := n.Zone().Slice().TxPool().Nonce(quaiAccounts[from].Int)
 		val := new(big.Int).Mul(big.NewInt(int64(1+op.C%8)), new(big.Int).Mul(big.NewInt(200_000), big.NewInt(params.Ether)))
-		tx, err := w.QuaiTransfer(from, to, val, r.gasPrice(2), 21000*4+uint64(op.D%3)*21000, nil, nonce)
+		var data []byte
+		switch op.D % 4 {
+		case 1:
+			data = []byte{0x00, 0x1e} // the tightest slippage bound (MinSlip): refunded when the flow discount bites
+		case 2:
+			data = []byte{0x03, 0xe8} // 10 %
+		case 3:
+			data = []byte{0xff, 0xff} // beyond MaxSlip: clamped
+		}
+		tx, err := w.QuaiTransfer(from, to, val, r.gasPrice(2), 21000*5+uint64(op.D%3)*21000, data, nonce)
 		if err == nil {
 			r.addTx(tx, "convert")
 		}
@@ -418,7 +431,7 @@ func (r *Runner) qiSpend(op Op) {
 	ai := op.A
 	for di, d := range denoms {
 		if convertTo >= 0 && di == 0 {
-			outs = append(outs, types.TxOut{Denomination: d, Address: quaiAccounts[convertTo].Addr.Bytes()})
+			outs = append(outs, types.TxOut{Denomination: d, Address: quaiAccounts[6].Addr.Bytes()})
 			continue
 		}
 		for k := 0; k < len(qiAccounts); k++ {
@@ -438,7 +451,7 @@ func (r *Runner) qiSpend(op Op) {
 		for k := 0; k < len(qiAccounts); k++ {
 			a := qiAccounts[(ai+k)%len(qiAccounts)].Addr
 			if !used[a.Bytes20()] {
-				data = append([]byte{0, byte(op.D % 4 * 60)}, a.Bytes()...)
+				data = append([]byte{byte(op.D % 3 * 2), byte(op.D % 4 * 60)}, a.Bytes()...)
 				break
 			}
 		}
